@@ -7,6 +7,7 @@ model makes the run inconclusive.
 import re
 
 MODELS = {}
+CRATE_OVERRIDES = set()   # keys of MODELS that name functions of the crate under test (logging, timing)
 PATTERNS = []
 
 
@@ -26,6 +27,7 @@ def pattern(rx):
 
 
 def install(machine):
-    from . import core, strs, vecs, iters, fmt, maps, envs, paths, json  # noqa: F401
+    from . import core, strs, vecs, iters, fmt, maps, envs, paths, json, imara  # noqa: F401
     machine.models.update(MODELS)
     machine.model_patterns.extend(PATTERNS)
+    machine.crate_overrides.update(CRATE_OVERRIDES)
